@@ -153,7 +153,13 @@ def check(F, rep, tier):
                 ok, why = current_dir_ok(F, f, bi)
                 if ok: rep.ok("R14.4", "current_dir only when no directory was given / to absolutise a relative path (%s)" % fk, sample=why, nontrivial_key=fk + "cwd")
                 else: rep.bad("R14.4", "cwd:" + fk, "current_dir() used unconditionally: " + why, site)
-            if mir.call_matches(t, ("std::env::args",)) and f.path != ROOT:
+            if mir.call_matches(t, ("std::env::args", "std::env::args_os")) and f.path != ROOT:
+                top = f
+                while top.kind == "closure" and top.parent and F.fn(top.parent) is not None: top = F.fn(top.parent)
+                callers = {g.path for g, b2 in cg.sites.get(top.path, [])}
+                if top.path == ROOT or (callers and callers <= {ROOT}):
+                    rep.ok("R14.4", "process arguments are read by run() (through its private helper %s)" % top.path.rsplit("::", 1)[-1], sample=site, nontrivial_key="args" + fk)
+                    continue
                 rep.bad("R14.4", "args:" + fk, "process arguments read outside run()", site)
     rep.floor("R14.4", "environment access sites examined", n_env, 4)
     # ---- R14.5 threads / mutable statics ----------------------------------------------------------
